@@ -4,7 +4,7 @@
    history on which the source before the repair violated the property. *)
 From Coq Require Import String List NArith Lia.
 From Ax Require Import Lib.Bytes Lib.Mvx Lib.Keccak Model.Check Model.Env Model.Gateway Model.Governance
-     Proofs.GatewayMsgs Proofs.GovFacts Proofs.GovWorld Proofs.GovCount Gen.Generated.
+     Proofs.GatewayMsgs Proofs.GovFacts Proofs.GovWorld Proofs.GovGwOrigin Proofs.GovCount Gen.Generated.
 Import ListNotations.
 Open Scope N_scope.
 
@@ -99,6 +99,18 @@ Section C11.
     total H verify (accept_of H verify) w os h <=
     total H verify (sched_of H verify) w os h + total H verify (cb_of false) w os h + bnz (getN (gv_eta (w_gov w)) h).
   Proof. exact (accepts_bounded H verify). Qed.
+  (* "scheduled by an AUTHENTICATED governance command", end to end (Proofs/GovGwOrigin.v): a command accepted after any history that
+     started without the message traces back to an approveMessages transaction of that history, accepted by the gateway, whose batch
+     named exactly this command for the governance contract (see c12_command_traces_to_batch and c01_sound) *)
+  Theorem c11_command_traces_to_batch : forall ops w0 c chain id src payload w' ev,
+    mst (w_gw w0) (chain, id) = None ->
+    gov_execute H true (vrun H verify true w0 ops) c chain id src payload = Some (w', ev) ->
+    exists cg raw p ms m pre,
+      In (VGateway (GApprove cg raw p)) ops /\ dec_messages_top raw = Some ms /\ In m ms /\ mkey m = (chain, id) /\
+      mhash H m = message_hash H chain id src (x_self c) (H payload) /\
+      Forall (fun go => In (VGateway go) ops \/ gis_val go) pre /\
+      approve_messages H verify (grun H verify (w_gw w0) pre) raw p <> None.
+  Proof. exact (command_traces_to_batch H verify). Qed.
 End C11.
 
 Print Assumptions c11_dispatch_requires.
